@@ -17,7 +17,10 @@ Proof. intros H. unfold add64. apply wrap64_small. exact H. Qed.
 Lemma mul64_id a b : a * b < two64 -> mul64 a b = a * b.
 Proof. intros H. unfold mul64. apply wrap64_small. exact H. Qed.
 Lemma nthN_map {A B} (g : A -> B) (l : list A) i : nthN (map g l) i = option_map g (nthN l i).
-Proof. unfold nthN. apply nth_error_map. Qed.
+Proof. rewrite !nthN_nth_error. apply nth_error_map. Qed.
+
+Lemma nthN_In {A} (l : list A) i x : nthN l i = Some x -> In x l.
+Proof. rewrite nthN_nth_error. apply nth_error_In. Qed.
 
 Lemma flag_set_testbit pf k : flag_set pf (2 ^ k) = has_flag pf k.
 Proof. unfold flag_set, has_flag. rewrite land_pow2_testbit. apply negb_involutive. Qed.
@@ -350,12 +353,12 @@ Section Altair.
         rewrite eligible_spec_idxs in Hiel. pose proof (in_idxs_range _ _ _ Hiel) as Hi.
         apply idxs_in in Hiel. destruct Hiel as [_ [v' [Hv' Hel]]]. rewrite N.sub_0_r in Hv'.
         destruct (flats_lookup st i Hi) as [v [Hv [Hfl [Hsl Heff]]]].
-        assert (v' = v) by (unfold nthN in Hv; congruence). subst v'.
+        assert (v' = v) by (rewrite nthN_nth_error in Hv; congruence). subst v'.
         rewrite Hm3, Hm4, Hfl.
         destruct (nthN_in_range pp i ltac:(unfold pp; rewrite Hppl; exact Hi)) as [pf Hpf]. fold pp. rewrite Hpf.
         cbn [flatten fl_slashed fl_effective_balance]. rewrite flag_set_testbit.
         rewrite <- (mem_unslashed_eligible st k i v pf Hv Hpf Hel). fold pe pp unsl.
-        assert (Hin_v : In v (validators st)) by (eapply nth_error_In; exact Hv).
+        assert (Hin_v : In v (validators st)) by (eapply nthN_In; exact Hv).
         pose proof (Hnum v Hin_v) as Hn. rewrite <- Heff in *. fold (base i) in Hn.
         assert (Hb1 : base i * weight < two64) by nia.
         assert (Hb0 : base i < two64) by nia.
@@ -382,13 +385,13 @@ Section Altair.
       unfold flatten_validators. rewrite map_length. fold (nvals st). fold (zeros st).
       assert (Hnd : NoDup (get_eligible_validator_indices E st)) by (rewrite eligible_spec_idxs; apply idxs_NoDup).
       assert (Hz : forall i x, nthN (zeros st) i = Some x -> x = 0).
-      { intros i x Hx. unfold zeros, nthN in Hx. apply nth_error_In in Hx. apply repeat_spec in Hx. exact Hx. }
+      { intros i x Hx. unfold zeros in Hx. rewrite nthN_nth_error in Hx. apply nth_error_In in Hx. apply repeat_spec in Hx. exact Hx. }
       f_equal.
       - apply fold_updN_ext; [exact Hnd|]. intros i x Hi Hx. apply Hz in Hx. subst x. unfold FR, GR.
         destruct (memN i unsl && negb leak); [|reflexivity].
         rewrite eligible_spec_idxs in Hi. pose proof (in_idxs_range _ _ _ Hi) as Hir.
         destruct (flats_lookup st i Hir) as [v [Hv [_ [_ Heff]]]].
-        assert (Hin_v : In v (validators st)) by (eapply nth_error_In; exact Hv).
+        assert (Hin_v : In v (validators st)) by (eapply nthN_In; exact Hv).
         pose proof (Hnum v Hin_v) as Hn. rewrite <- Heff in Hn. fold (base i) in Hn.
         apply add64_id. rewrite N.add_0_l.
         assert (base i * weight * part_incr / (active_incr * WEIGHT_DENOMINATOR) <= base i * weight * part_incr).
@@ -398,7 +401,7 @@ Section Altair.
         destruct (negb (memN i unsl) && negb (k =? TIMELY_HEAD_FLAG_INDEX)); [|reflexivity].
         rewrite eligible_spec_idxs in Hi. pose proof (in_idxs_range _ _ _ Hi) as Hir.
         destruct (flats_lookup st i Hir) as [v [Hv [_ [_ Heff]]]].
-        assert (Hin_v : In v (validators st)) by (eapply nth_error_In; exact Hv).
+        assert (Hin_v : In v (validators st)) by (eapply nthN_In; exact Hv).
         pose proof (Hnum v Hin_v) as Hn. rewrite <- Heff in Hn. fold (base i) in Hn.
         apply add64_id. rewrite N.add_0_l.
         assert (base i * weight / WEIGHT_DENOMINATOR <= base i * weight).
@@ -460,7 +463,7 @@ Section Altair.
         rewrite eligible_spec_idxs in Hiel. pose proof (in_idxs_range _ _ _ Hiel) as Hi.
         apply idxs_in in Hiel. destruct Hiel as [_ [v' [Hv' Hel]]]. rewrite N.sub_0_r in Hv'.
         destruct (flats_lookup st i Hi) as [v [Hv [Hfl [Hsl Heff]]]].
-        assert (v' = v) by (unfold nthN in Hv; congruence). subst v'.
+        assert (v' = v) by (rewrite nthN_nth_error in Hv; congruence). subst v'.
         rewrite Hm3, Hm4, Hfl.
         destruct (nthN_in_range pp i ltac:(unfold pp; rewrite Hppl; exact Hi)) as [pf Hpf]. fold pp. rewrite Hpf.
         cbn [flatten fl_slashed fl_effective_balance]. change TIMELY_TARGET_FLAG with (2 ^ 1). rewrite flag_set_testbit.
@@ -478,7 +481,7 @@ Section Altair.
       unfold flatten_validators. rewrite map_length. fold (nvals st). fold (zeros st). f_equal. f_equal.
       assert (Hnd : NoDup (get_eligible_validator_indices E st)) by (rewrite eligible_spec_idxs; apply idxs_NoDup).
       apply fold_updN_ext; [exact Hnd|]. intros i x Hi Hx.
-      assert (x = 0). { unfold zeros, nthN in Hx. apply nth_error_In in Hx. apply repeat_spec in Hx. exact Hx. }
+      assert (x = 0). { unfold zeros in Hx. rewrite nthN_nth_error in Hx. apply nth_error_In in Hx. apply repeat_spec in Hx. exact Hx. }
       subst x. unfold FI, GI. destruct (memN i tidx); [reflexivity|].
       rewrite eligible_spec_idxs in Hi. pose proof (in_idxs_range _ _ _ Hi) as Hir.
       apply add64_id. rewrite N.add_0_l. pose proof (Hnum i Hir).
@@ -522,7 +525,7 @@ Section Altair.
         rewrite eligible_spec_idxs in Hiel. pose proof (in_idxs_range _ _ _ Hiel) as Hi.
         apply idxs_in in Hiel. destruct Hiel as [_ [v' [Hv' Hel]]]. rewrite N.sub_0_r in Hv'.
         destruct (flats_lookup st i Hi) as [v [Hv [Hfl [Hsl Heff]]]].
-        assert (v' = v) by (unfold nthN in Hv; congruence). subst v'.
+        assert (v' = v) by (rewrite nthN_nth_error in Hv; congruence). subst v'.
         destruct (nthN_in_range sc i ltac:(rewrite Hlen; exact Hi)) as [s0 Hs0]. rewrite Hs0, Hm3, Hm4, Hfl.
         destruct (nthN_in_range pp i ltac:(unfold pp; rewrite Hppl; exact Hi)) as [pf Hpf]. fold pp. rewrite Hpf.
         cbn [flatten fl_slashed]. change TIMELY_TARGET_FLAG with (2 ^ 1). rewrite flag_set_testbit.
@@ -538,7 +541,7 @@ Section Altair.
       assert (Hfold : fold_left (fun l i => updN l i (FS i)) (get_eligible_validator_indices E st) (inactivity_scores st) =
                       fold_left (fun l i => updN l i (GS i)) (get_eligible_validator_indices E st) (inactivity_scores st)).
       { apply fold_updN_ext; [exact Hnd|]. intros i x Hi Hx.
-        assert (Hxb : x + INACTIVITY_SCORE_BIAS c < two64). { apply Hsb. unfold nthN in Hx. eapply nth_error_In. exact Hx. }
+        assert (Hxb : x + INACTIVITY_SCORE_BIAS c < two64). { apply Hsb. rewrite nthN_nth_error in Hx. eapply nth_error_In. exact Hx. }
         unfold FS, GS. rewrite add64_id by exact Hxb. cbv zeta.
         destruct (memN i tidx), leak; destruct (N.ltb_spec 0 x);
           repeat match goal with |- context [?a <? ?b] => destruct (N.ltb_spec a b) end; lia. }
